@@ -83,10 +83,21 @@ func main() {
 }
 
 func filterCase(r *hlib.Rng, s *hlib.Suite) {
-	qf, cols := genFrame(r, nil)
+	promo := r.Chance(1, 15)
+	var need []string
+	if promo {
+		need = []string{"int", "float"}
+	}
+	qf, cols := genFrame(r, need)
 	qf, cols, hist := deriveCols(r, qf, cols, s)
 	malformed := r.Chance(1, 4)
 	cl := genClause(r, cols, 3, malformed)
+	if promo {
+		if pc := genPromotionClause(r, cols); pc != nil {
+			cl, malformed = pc, false
+			s.Count("filter-int-float-promotion")
+		}
+	}
 	in := qframe.VerifDump(qf)
 	before := digest(qf)
 	var out qframe.QFrame
